@@ -143,6 +143,10 @@ fn reachable(vm: &Vm<Host>, extra_roots: &[Value]) -> (BTreeSet<usize>, usize) {
                 work.push(*k);
                 work.push(*val);
             }
+            // keys that can not be found again are still referenced by the ordered key list
+            for k in t.keys() {
+                work.push(*k);
+            }
         } else if let Some(c) = obj.as_closure() {
             for u in &c.upvalues {
                 work.push(Value::Object(*u));
